@@ -27,3 +27,8 @@ REG.optional_keys['TaskDictDescr'] = {'metadata'}
 
 # properties of facade classes modelled as records
 REG.rec_props = {'Task': {'state': '_state', 'uid': '_uid', 'pilot': '_pilot'}}
+
+# -- client side pilot facade ---------------------------------------------------
+PilotObj = T.Rec('Pilot', _uid=T.Str, _state=OStr)
+REG.types['Pilot'] = PilotObj
+REG.rec_props['Pilot'] = {'uid': '_uid', 'state': '_state'}
